@@ -126,7 +126,7 @@ func runC15(seed uint64, n int, tier string) {
 }
 
 func runC15Case(id string, c *c15Case) {
-	defer recoverCase(id, c)
+	defer watchCase(id, c)()
 	cs := &Case{ID: id, Kind: "opening", HypOK: true, Replay: c}
 	opening := renderToks(c.Toks)
 	cs.Line = "c15 " + hx(opening)
